@@ -10,7 +10,8 @@ Line-protocol driver for C08.
       -> {"whole":bool,"complete":[bool,...]}   `Complete (cutTokens tokens k inside)` for each cut
   {"op":"run","entry":2,"trace":[[site,eff],...],"natural":null | [site,kind],"faults":[[k,kind],...]}
       `trace` = the file-layer calls the real library made in a fault-free run (or, with `natural`, up to the
-      point where the library raised by itself at `site` with exception class `kind`).
+      point where the library raised by itself at `site` with exception class `kind`; or, with "prefix":true,
+      up to and including a call in which the file layer itself raised).
       The driver searches an oracle under which `run` on the extracted skeleton makes exactly these calls
       (search is untrusted; the result is checked by running the verified model function), then runs the model
       with the fault injected at each requested call.
@@ -28,7 +29,7 @@ structure MS where
 
 /-- backtracking matcher: find oracle events under which the skeleton's fault-free path makes the calls `tr`
     (and then, if `nat = some (site, kind)`, raises at `site`). -/
-partial def matchS (nat : Option (Nat × Nat)) : Stmt → MS → (MS → Option Ev) → Option Ev
+partial def matchS (nat : Option (Nat × Nat)) (pre : Bool) : Stmt → MS → (MS → Option Ev) → Option Ev
   | s, m, k =>
     if m.done || m.returned then k m   -- skipping to the end of the enclosing scope / of the run
     else
@@ -36,7 +37,8 @@ partial def matchS (nat : Option (Nat × Nat)) : Stmt → MS → (MS → Option 
     | .skip => k m
     | .call e site =>
       match m.tr with
-      | (t, c) :: r => if t == site && c == e.code then k { m with tr := r } else none
+      | (t, c) :: r =>
+        if t == site && c == e.code then k { m with tr := r, done := pre && r.isEmpty } else none
       | [] => none
     | .raise_ _ site =>
       match m.tr, nat with
@@ -54,29 +56,29 @@ partial def matchS (nat : Option (Nat × Nat)) : Stmt → MS → (MS → Option 
       | (t, c) :: r => if t == site && c == 8 then k { m with tr := r } else none
       | [] => none
     | .restore _ => k m
-    | .seq a b => matchS nat a m (fun m' => matchS nat b m' k)
+    | .seq a b => matchS nat pre a m (fun m' => matchS nat pre b m' k)
     | .loop oid b =>
       let rec go (n : Nat) (m : MS) : Option Ev :=
-        (matchS nat b m (fun m' =>
+        (matchS nat pre b m (fun m' =>
           if m'.done || m'.returned then k { m' with ev := (oid, n + 1) :: m'.ev }
           else if m'.tr.length < m.tr.length then go (n + 1) m' else none))
         <|> k { m with ev := (oid, n) :: m.ev }
       go 0 m
     | .choice oid a b =>
-      matchS nat a { m with ev := (oid, 1) :: m.ev } k <|> matchS nat b { m with ev := (oid, 0) :: m.ev } k
+      matchS nat pre a { m with ev := (oid, 1) :: m.ev } k <|> matchS nat pre b { m with ev := (oid, 0) :: m.ev } k
     | .tryFinally _ body fin =>
-      matchS nat body m (fun m' =>
+      matchS nat pre body m (fun m' =>
         if m'.done then k m' else
           let r := m'.returned
-          matchS nat fin { m' with returned := false } (fun m'' => k { m'' with returned := r || m''.returned }))
-    | .tryExcept _ body _ _ _ => matchS nat body m k
-    | .scope b => matchS nat b m (fun m' => k { m' with returned := false })
+          matchS nat pre fin { m' with returned := false } (fun m'' => k { m'' with returned := r || m''.returned }))
+    | .tryExcept _ body _ _ _ => matchS nat pre body m k
+    | .scope b => matchS nat pre b m (fun m' => k { m' with returned := false })
     | .ret => k { m with returned := true }
     | .unsupported _ => k m
 
-def findOracle (s : Stmt) (tr : List (Nat × Nat)) (nat : Option (Nat × Nat)) : Option Ev :=
-  matchS nat s { tr := tr, done := false, returned := false, ev := [] }
-    (fun m => if m.tr.isEmpty && (nat.isNone || m.done) then some m.ev.reverse else none)
+def findOracle (s : Stmt) (tr : List (Nat × Nat)) (nat : Option (Nat × Nat)) (pre : Bool) : Option Ev :=
+  matchS nat pre s { tr := tr, done := false, returned := false, ev := [] }
+    (fun m => if m.tr.isEmpty && ((nat.isNone && !pre) || m.done) then some m.ev.reverse else none)
 
 def oracleOfEv (ev : Ev) : Nat → List Nat := fun oid => (ev.filter (fun p => p.1 == oid)).map (·.2)
 
@@ -115,7 +117,7 @@ def handle (j : Json) : Json :=
     | some s =>
       let tr := pairList (getObj j "trace")
       let nat : Option (Nat × Nat) := match natList (getObj j "natural") with | [a, b] => some (a, b) | _ => none
-      match findOracle s tr nat with
+      match findOracle s tr nat (getBool j "prefix") with
       | none => Json.mkObj [("matched", false)]
       | some ev =>
         let orc := oracleOfEv ev
